@@ -229,6 +229,9 @@ func (r *Run) Oracle() []Finding {
 	if sc.Honest < 0 {
 		// ----- C03 -----
 		both := []int{0, 1}
+		for _, x := range r.CloseErr {
+			add("subchannel-close", "two honest clients could not settle a final sub-channel into its parent: %s", x)
+		}
 		for _, p := range both {
 			if !r.Settled[p] {
 				add("settle-error", "honest party %d could not settle: %s", p, r.SetErr[p])
